@@ -106,6 +106,14 @@ def cases(tier):
         for fr in ("0.5", "2.5/9", "6.5/9", "0.3", "0.7", "3.5/9"):
             yield Case("stack:bp:frac=%s:depth=%d" % (fr, depth),
                        {"kind": "stack", "fn": "bp", "par": 0, "frac": fr, "depth": depth, "alpha": "A12"})
+    # non-square frames (2 x 5 and 4 x 3)
+    for alpha in ("R25", "R43"):
+        for depth in (1, 2):
+            for t in (0, 0.3):
+                yield Case("stack:cog:thr=%g:depth=%d:frames=%s" % (t, depth, alpha),
+                           {"kind": "stack", "fn": "cog", "par": t, "depth": depth, "alpha": alpha}, True)
+            yield Case("stack:bp:frac=0.4:depth=%d:frames=%s" % (depth, alpha),
+                       {"kind": "stack", "fn": "bp", "par": 0, "frac": "0.4", "depth": depth, "alpha": alpha})
     # the same stacks stored in other dtypes (camera counts are integers): stack == frames must not depend on it
     for dt in ("int64", "uint8", "int32", "float32"):
         for depth in ((1, 2) if tier == "quick" else (1, 2, 3)):
@@ -358,6 +366,18 @@ def _a12():
     return [numpy.array(r, dtype=float) for r in rows]
 
 
+def _rect(shape):
+    """non-square frames cut from / padded around the A12 images (a wrong axis length in a flattened-index
+    computation is invisible on square frames)"""
+    out = []
+    for a in _a12():
+        big = numpy.zeros((4, 5))
+        big[:3, :3] = a
+        big[3, 4] = a[0, 0] + 0.5
+        out.append(big[:shape[0], :shape[1]].copy())
+    return out
+
+
 def _b80():
     return [img for _, img in cog.all_images((2, 2), (0, 1, 3)) if img.any()]
 
@@ -381,7 +401,8 @@ def _stack(p):
     C = _lib()
     o = Out()
     fn, par, depth = p["fn"], p["par"], p["depth"]
-    alpha = _a12() if p["alpha"] == "A12" else _b80()
+    alpha = _a12() if p["alpha"] == "A12" else (_rect((2, 5)) if p["alpha"] == "R25" else
+                                                 _rect((4, 3)) if p["alpha"] == "R43" else _b80())
     if p.get("dtype"):
         alpha = [numpy.round(a * 4).astype(p["dtype"]) for a in alpha]
     npix = alpha[0].size
